@@ -28,6 +28,7 @@ import (
 	"go/constant"
 	"go/token"
 	"go/types"
+	"math"
 	"regexp"
 	"strconv"
 	"strings"
@@ -50,6 +51,8 @@ type RoundTrip struct {
 	// carries lengths as int32).
 	MaxLen *int64
 }
+
+var endianRe = regexp.MustCompile(`^\(encoding/binary\.(little|big)Endian\)\.(Put)?Uint(16|32|64)$`)
 
 var roundTripRe = regexp.MustCompile(`^encode\s+(\S+)\s+decode\s+(\S+)\s+unroll\s+(\d+)(?:\s+longest\s+(-?\d+))?(?:\s+maxlen\s+(\d+))?$`)
 
@@ -251,6 +254,10 @@ func (x *rtExec) val(f *rtFrame, v ssa.Value) rtVal {
 			u, _ := constant.Uint64Val(constant.ToInt(c.Value))
 			return rtVal{k: rtBV, bv: bvVal{fmt.Sprintf("(_ bv%d %d)", u, w), w, sg}}
 		}
+		if c.Value.Kind() == constant.Float || (isFloat(c.Type()) && c.Value.Kind() == constant.Int) {
+			fv, _ := constant.Float64Val(c.Value)
+			return rtVal{k: rtBV, bv: bvVal{fmt.Sprintf("(_ bv%d 64)", math.Float64bits(fv)), 64, false}}
+		}
 		if c.Value.Kind() == constant.String {
 			n := int64(len(constant.StringVal(c.Value)))
 			return rtVal{k: rtStr, bv: bvVal{bvConst(n, 64), 64, true}, konst: &n}
@@ -328,7 +335,9 @@ func (x *rtExec) from(f *rtFrame, b *ssa.BasicBlock, start int, st *rtState) []r
 						if !ok {
 							// zero value of the cell's type
 							et := a.Type().Underlying().(*types.Pointer).Elem()
-							if w, sg, isInt := bvTypeOf(et); isInt {
+							if isFloat(et) {
+								c = rtVal{k: rtBV, bv: bvVal{bvConst(0, 64), 64, false}}
+							} else if w, sg, isInt := bvTypeOf(et); isInt {
 								c = rtInt(0, w, sg)
 							} else if types.IsInterface(et) {
 								c = rtVal{k: rtNilErr}
@@ -727,7 +736,74 @@ func (x *rtExec) call(f *rtFrame, ins *ssa.Call, st *rtState) []rtRet {
 		panic(unsupported("roundtrip: builtin " + b.Name()))
 	}
 	callee := cc.StaticCallee()
+	if callee != nil {
+		switch callee.String() {
+		case "math.Float64bits", "math.Float64frombits":
+			// a float64 is carried as its IEEE bit pattern: both are the identity here
+			v := x.val(f, cc.Args[0])
+			if v.k != rtBV || v.bv.w != 64 {
+				panic(unsupported("roundtrip: " + callee.String() + " of " + cc.Args[0].String()))
+			}
+			return []rtRet{{st: st, res: []rtVal{{k: rtBV, bv: bvVal{v.bv.s, 64, false}}}}}
+		}
+		if m := endianRe.FindStringSubmatch(callee.String()); m != nil {
+			// ASSUMED contract of encoding/binary: the fixed-width byte split / join
+			big := m[1] == "big"
+			w, _ := strconv.Atoi(m[3])
+			nb := w / 8
+			sl := x.val(f, cc.Args[1])
+			if sl.k != rtSlice {
+				panic(unsupported("roundtrip: " + callee.String() + " on " + cc.Args[1].String()))
+			}
+			if sl.hi-sl.lo < nb {
+				st.panicked = fmt.Sprintf("%s on a slice of %d bytes", callee.Name(), sl.hi-sl.lo)
+				return []rtRet{{st: st}}
+			}
+			pos := func(i int) int { // buffer position of byte i (i = 0: least significant)
+				if big {
+					return sl.lo + nb - 1 - i
+				}
+				return sl.lo + i
+			}
+			if m[2] == "Put" {
+				v := x.val(f, cc.Args[2])
+				if v.k != rtBV || v.bv.w != w {
+					panic(unsupported("roundtrip: " + callee.String() + " value"))
+				}
+				for i := 0; i < nb; i++ {
+					st.bufs[sl.buf][pos(i)] = bvVal{fmt.Sprintf("((_ extract %d %d) %s)", 8*i+7, 8*i, v.bv.s), 8, false}
+				}
+				return []rtRet{{st: st}}
+			}
+			t := ""
+			for i := nb - 1; i >= 0; i-- {
+				b, ok := st.bufs[sl.buf][pos(i)]
+				if !ok {
+					panic(unsupported("roundtrip: " + callee.String() + " of an unwritten buffer byte"))
+				}
+				if t == "" {
+					t = b.s
+				} else {
+					t = "(concat " + t + " " + b.s + ")"
+				}
+			}
+			return []rtRet{{st: st, res: []rtVal{{k: rtBV, bv: bvVal{t, w, false}}}}}
+		}
+	}
 	if callee != nil && callee.String() == "io.ReadFull" {
+		if sl := x.val(f, cc.Args[1]); sl.k == rtSlice {
+			// a slice of concrete length: that many protocol bytes go into the buffer
+			n := sl.hi - sl.lo
+			for i := 0; i < n; i++ {
+				if st.pos >= len(st.in) || st.in[st.pos].w == rtBlob {
+					st.starved = true
+					return []rtRet{{st: st}}
+				}
+				st.bufs[sl.buf][sl.lo+i] = st.in[st.pos]
+				st.pos++
+			}
+			return []rtRet{{st: st, res: []rtVal{rtInt(int64(n), 64, true), {k: rtNilErr}}}}
+		}
 		buf := x.val(f, cc.Args[1])
 		if buf.k != rtSymSlice {
 			panic(unsupported("roundtrip: io.ReadFull into " + cc.Args[1].String()))
@@ -796,6 +872,13 @@ func (e *Engine) verifyRoundTrip(ps *PkgSpec, rt *RoundTrip) (res *FuncResult) {
 			name := "arg_" + p.Name()
 			decls = append(decls, fmt.Sprintf("(declare-fun %s () (_ BitVec %d))", name, w))
 			v := rtVal{k: rtBV, bv: bvVal{name, w, sg}}
+			args = append(args, v)
+			dataArgs = append(dataArgs, v)
+		} else if isFloat(p.Type()) {
+			// a float64: its IEEE bit pattern (the code only moves the bits around)
+			name := "arg_bits_" + p.Name()
+			decls = append(decls, fmt.Sprintf("(declare-fun %s () (_ BitVec 64))", name))
+			v := rtVal{k: rtBV, bv: bvVal{name, 64, false}}
 			args = append(args, v)
 			dataArgs = append(dataArgs, v)
 		} else if isString(p.Type()) {
@@ -937,6 +1020,9 @@ func (e *Engine) verifyRoundTrip(ps *PkgSpec, rt *RoundTrip) (res *FuncResult) {
 				r := dp.res[0].bv
 				if r.w != a.w {
 					panic(unsupported("roundtrip: decoder result width differs from the encoder argument"))
+				}
+				if strings.HasPrefix(a.s, "arg_bits_") {
+					trail += " (float64 compared bit for bit)"
 				}
 				if arg.k == rtStr {
 					// same length, the bytes are the argument's (or there are none), nothing left unread
